@@ -1,2 +1,69 @@
-(* Properties_C09_hll.v — placeholder while the codec pipeline is brought up (replaced by the theorems). *)
-From DS Require Import HllCodecDefs.
+(* Properties_C10_hll.v — documented layout of the hll_sketch images (C10): every field of [enc] sits at its documented
+   offset with its documented value (HllUtil.hpp hll_constants: PREAMBLE_INTS_BYTE 0, SER_VER_BYTE 1, FAMILY_BYTE 2, LG_K_BYTE 3,
+   LG_ARR_BYTE 4, FLAGS_BYTE 5, LIST_COUNT_BYTE / HLL_CUR_MIN_BYTE 6, MODE_BYTE 7, LIST_INT_ARR_START 8, HASH_SET_COUNT_INT 8,
+   HASH_SET_INT_ARR_START 12, HIP_ACCUM_DOUBLE 8, KXQ0_DOUBLE 16, KXQ1_DOUBLE 24, CUR_MIN_COUNT_INT 32, AUX_COUNT_INT 36,
+   HLL_BYTE_ARR_START 40), for EVERY state (no invariant needed), and the table of an updatable SET image follows the documented
+   open-addressing rule.  [enc] is compared byte for byte with the implementation on every run (fam_hllcodec). *)
+From Coq Require Import ZArith NArith List Bool Lia.
+From DS Require Import Word RunnerLib HllDefs HllProofs HllOpenAddr HllSetProofs HllSketchProofs HllCodecDefs HllCodecProofs.
+Import ListNotations.
+Local Open Scope N_scope.
+
+(* the 8 preamble bytes shared by the three kinds: preamble ints 2 / 3 / 10, serial version 1, family 7, lg_k, flag bits
+   (4 empty, 8 compact, 16 out of order, 32 full size), mode byte = mode | type << 2 *)
+Theorem C10_hll_preamble : forall compact hip i,
+  let b := enc compact hip i in
+  getN b 0 = match i with IList _ => 2 | ISet _ => 3 | IHll _ => 10 end /\ getN b 1 = 1 /\ getN b 2 = 7 /\
+  getN b 3 = sk_lgk i /\ getN b 7 = mode_byte (sk_mode i) (sk_ty i) /\
+  flag (getN b 5) 8 = compact /\ flag (getN b 5) 4 = sk_is_empty i /\ flag (getN b 5) 16 = sk_ooo i /\ flag (getN b 5) 32 = sk_full i.
+Proof. exact enc_preamble. Qed.
+
+Theorem C10_hll_list_layout : forall compact hip l,
+  let b := enc compact hip (IList l) in
+  getN b 4 = 3 /\ getN b 6 = l_cnt l mod 256 /\ skipn 8 b = flat_map le32 (if compact then nonzero (l_arr l) else l_arr l).
+Proof. exact enc_list_layout. Qed.
+
+Theorem C10_hll_set_layout : forall compact hip s,
+  let b := enc compact hip (ISet s) in
+  getN b 4 = s_lg s /\ getN b 6 = 0 /\ firstn 4 (skipn 8 b) = le32 (s_cnt s) /\
+  skipn 12 b = flat_map le32 (if compact then nonzero (s_arr s) else s_arr s).
+Proof. exact enc_set_layout. Qed.
+
+Theorem C10_hll_array_layout : forall compact hip h,
+  let b := enc compact hip (IHll h) in
+  getN b 4 = aux_lg (h_aux h) /\ getN b 6 = h_curmin h /\
+  firstn 8 (skipn 8 b) = le64 hip /\ firstn 8 (skipn 16 b) = le64 (kbits 31 (h_kxq0 h)) /\ firstn 8 (skipn 24 b) = le64 (kbits 63 (h_kxq1 h)) /\
+  firstn 4 (skipn 32 b) = le32 (h_numat h) /\ firstn 4 (skipn 36 b) = le32 (aux_cnt (h_aux h)) /\
+  skipn 40 b = h_bytes h ++ match h_ty h with T4 => enc_aux compact (h_lgk h) (h_aux h) | _ => [] end.
+Proof. exact enc_hll_layout. Qed.
+
+(* SET mode: the table stored verbatim in the updatable image has 2^lg slots and every stored coupon c is reachable from its
+   home slot (c & mask) along home + j * stride, stride = ((c & KEY_MASK_26) >> lg) | 1, without crossing an empty slot
+   ([reach] of HllOpenAddr, instantiated with the documented home and stride) *)
+Theorem C10_hll_set_probe_rule : forall ty lgk full cs s hip,
+  4 <= lgk -> lgk <= 21 -> Forall cvalid cs -> sk_run ty lgk full cs = Some (ISet s) ->
+  lenN (s_arr s) = 2 ^ s_lg s /\
+  reach (s_lg s) (fun e => e) (shome (s_lg s)) (set_stride (s_lg s)) (s_arr s) /\
+  skipn 12 (enc false hip (ISet s)) = flat_map le32 (s_arr s).
+Proof. exact run_set_probe_rule. Qed.
+
+(* the documented stride and home, spelled out *)
+Example C10_hll_stride_is_documented : forall lg c,
+  set_stride lg c = N.lor (N.shiftr (N.land c 67108863) lg) 1 /\ shome lg c = N.land c (N.ones lg).
+Proof. intros. split; reflexivity. Qed.
+
+(* non-vacuity: a list image and an HLL_8 image, field by field *)
+Example C10_hll_nonvacuous :
+  match sk_run T8 12 false [pair_sv 5 3; pair_sv 70000 1], sk_run T8 4 true [pair_sv 5 3] with
+  | Some i, Some j =>
+      enc true 0 i = [2; 1; 7; 12; 3; 8; 2; 8] ++ le32 (pair_sv 5 3) ++ le32 (pair_sv 70000 1) /\
+      firstn 8 (enc true 0 j) = [10; 1; 7; 4; 0; 40; 0; 10] /\ getN (enc true 0 j) (40 + 5) = 3 /\ lenN (enc true 0 j) = 56
+  | _, _ => False
+  end.
+Proof. vm_compute. repeat split; reflexivity. Qed.
+
+Print Assumptions C10_hll_preamble.
+Print Assumptions C10_hll_list_layout.
+Print Assumptions C10_hll_set_layout.
+Print Assumptions C10_hll_array_layout.
+Print Assumptions C10_hll_set_probe_rule.
